@@ -215,6 +215,18 @@ fn scan_and_connect(
 }
 
 
+fn scan_and_merge(table: &mut CosetTable, w: &FreeWord, start: usize) -> bool {
+    let (head, tail, gap, _) = scan_both_ways(table, w, table.canon(start));
+
+    if gap == 0 && head != tail {
+        table.merge(head, tail);
+        true
+    } else {
+        false
+    }
+}
+
+
 pub fn coset_table(
     nr_gens: usize, relators: &Vec<FreeWord>, subgroup_gens: &Vec<FreeWord>
 ) -> CosetTable
@@ -247,6 +259,24 @@ pub fn coset_table(
                     scan_and_connect(&mut table, w, c);
                 }
             }
+        }
+    }
+
+    // Entries made by deductions and coincidences have not been scanned.
+    loop {
+        let mut changed = false;
+
+        for i in 0..table.len() {
+            for w in relators {
+                changed |= scan_and_merge(&mut table, w, i);
+            }
+        }
+        for w in subgroup_gens {
+            changed |= scan_and_merge(&mut table, w, 0);
+        }
+
+        if !changed {
+            break;
         }
     }
 
